@@ -19,8 +19,8 @@ from . import c03
 
 REPS_QUICK = ["<a>", "<A N>", "</a>", "<b/>", "<a x/>", "k v", "k", "k v", "K $$w", "j (x  y",
               "# c", "", "%import p", "%import Q.r", "%define x y", "%include f", "j <v>", "m x$$",
-              "<b>", "</b>"]
-REPS_MORE = ["k # v", "k %v", "<a n/ >", "<a/ >", "k $$$$", "%import p$$", "é É", "<é É>", "</é>", "k  v   w"]
+              "<b>", "</b>", "<a/ >", "</a/>", "<a n/ >"]
+REPS_MORE = ["k # v", "k %v", "<a/ n/ >", "k $$$$", "%import p$$", "é É", "<é É>", "</é>", "k  v   w"]
 
 
 def round_trip(text):
